@@ -97,6 +97,8 @@ def base_request(world, cmd, states=False, faults=None, nodes_rows=None):
            "states": states}
     if faults:
         req["faults"] = faults
+    if world.get("mountTable"):
+        req["mountTable"] = [hx(m) for m in world["mountTable"]]
     return req
 
 
@@ -144,6 +146,26 @@ def canon_dates(state, before_state, window=None):
                 v = (v[0], DATE_RE.sub(b"DeletionDate=" + DATE_PLACEHOLDER, v[1], count=1), v[2], v[3], v[4])
         out[p] = v
     return out, dates
+
+
+def phys_resolve(state, path, depth=0):
+    """the canonical path a kernel would reach for `path` in the canonical state `state` (final component not followed):
+    symbolic links are followed before a '..' after them is applied"""
+    cur = b""
+    parts = [c for c in path.split(b"/") if c not in (b"", b".")]
+    for i, c in enumerate(parts):
+        if c == b"..":
+            cur = cur.rsplit(b"/", 1)[0]
+            continue
+        nxt = cur + b"/" + c
+        v = state.get(nxt)
+        if v is not None and v[0] == "l" and i < len(parts) - 1 and depth < 40:
+            tgt = v[4]
+            full = tgt if tgt.startswith(b"/") else cur + b"/" + tgt
+            cur = phys_resolve(state, full + b"/.", depth + 1)
+        else:
+            cur = nxt
+    return cur or b"/"
 
 
 def diff_states(a, b, limit=6):
